@@ -176,8 +176,12 @@ def check_matrix(c):
                 if not rel and not herm:
                     variants.append(('svd', None))
                 for fn, give in variants:
-                    if fn == 'svd' and e * unit < 1e-6 * nrm:
-                        continue      # Gram-matrix mode: thresholds below its rounding floor are not judged here
+                    if fn == 'svd' and e * unit < 1e-4 * nrm:
+                        # Gram-matrix mode knows a singular value t only to about u*sigma_1^2/t: below 1e-4*sigma_1 the 4e-6
+                        # placement margin is inside that noise, so the size is not judged there (truncate's floor, C02)
+                        continue
+                    if herm and e * unit < 1e-8 * nrm:
+                        continue      # the hermitian (eigh-based) SVD knows singular values to u*sigma_1 absolutely: same reasoning
                     case = dict(c, rel=rel, e=float(e), r=r, fn=fn, give_to=give)
                     res.ev()
                     with warnings.catch_warnings():
